@@ -14,7 +14,7 @@ def world_module(world):
     return 'vw_' + h
 
 
-def run_world(world, idx=0, timeout=180, hashseed='0', extra_env=None, keep=False):
+def run_world(world, idx=0, timeout=300, hashseed='0', extra_env=None, keep=False):
     """Materialise the world, run it in a fresh interpreter, return the observation."""
     import worldcase
     worldcase.sync_twins(world)
